@@ -27,9 +27,9 @@ CLASSES = sc.VERTEX_CLASSES + sc.CURVED_CLASSES        # the order of `Setters.C
 # ------------------------------------------------------------------ base shapes (always all of them, every seed)
 
 FLAVOURS = {
-    "ConvexPolyhedron": ["regular", "generic", "tetrahedron", "generic-far"],
+    "ConvexPolyhedron": ["regular", "generic", "tetrahedron", "generic-far", "octahedron"],
     "Polyhedron": ["regular", "generic", "nonconvex", "nonstar"],
-    "ConvexSpheropolyhedron": ["regular", "generic", "r0", "rbig"],
+    "ConvexSpheropolyhedron": ["regular", "generic", "r0", "rbig", "tetrahedron", "octahedron"],
     "Polygon": ["regular", "generic", "cw-normal", "cw-normal-xy", "reflex-first", "reflex-first-xy", "nonconvex-tilted"],
     "ConvexPolygon": ["regular", "generic", "cw-normal", "tilted-far"],
     "ConvexSpheropolygon": ["regular", "generic", "r0", "rbig", "tilted-cw"],
@@ -45,10 +45,17 @@ def build(rng, cls, flavour):
     S = sc.shapes_mod()
     if cls in sc.VERTEX_CLASSES and flavour in ("regular", "generic"):
         return sc.base_shape(rng, cls, flavour)
-    if cls == "ConvexPolyhedron":
+    if cls in ("ConvexPolyhedron", "ConvexSpheropolyhedron") and flavour in ("tetrahedron", "octahedron"):
+        # all-triangle solids: no simplices are merged into faces (one face per simplex)
         if flavour == "tetrahedron":
             v = rng.normal(size=(4, 3)) + rng.uniform(-3, 3, size=3)
+        else:
+            v = np.r_[np.eye(3), -np.eye(3)] * rng.uniform(0.6, 1.6, size=3)
+            v = v @ gen.random_rotation(rng).T + rng.uniform(-3, 3, size=3)
+        if cls == "ConvexPolyhedron":
             return S.ConvexPolyhedron(v)
+        return S.ConvexSpheropolyhedron(v, float(rng.uniform(0.1, 0.5)))
+    if cls == "ConvexPolyhedron":
         o = sc.base_shape(rng, cls, "generic")
         sc_ = float(10 ** rng.uniform(-1.5, 1.5))
         return S.ConvexPolyhedron((np.array(o.vertices) + rng.uniform(-5, 5, size=3)) * sc_)
@@ -243,6 +250,25 @@ def size_getters(obj, skip=()):
     return out
 
 
+def full_compare(ctx, sig, case, obj, what):
+    """'nothing else changed': ALL public observables of the live object (plane equations by face, is_inside on probes,
+    every ball, inertia, ...) against a shape freshly constructed from its current vertices."""
+    try:
+        fresh = sc.fresh_of(obj)
+    except Exception as e:
+        ctx.fail(sig + ":fresh-construction-fails", "after %s the current vertices no longer construct the shape (%s)"
+                 % (what, exc_kind(e)), case, repr(e))
+        return False
+    size = sc.size_of(obj)
+    diffs = sc.compare(sc.observe(obj), sc.observe(fresh), size)
+    ctx.count("full-compares")
+    if diffs:
+        ctx.fail(sig + ":stale:" + diffs[0][0], "after %s the observable %s differs from a freshly constructed shape"
+                 % (what, diffs[0][0]), case, [str(x)[:300] for x in diffs[0]])
+        return False
+    return True
+
+
 def eval_case(ctx, case):
     cls, flavour, prop, mode, val = case["cls"], case["flavour"], case["prop"], case["mode"], case["value"]
     rng = np.random.default_rng(case["base_seed"])
@@ -341,6 +367,8 @@ def eval_case(ctx, case):
         if not sc.num_close(back2, want2, 2 * size1, 1e-9):
             ctx.fail(sig + ":centre-after-size-setter", "after doubling the size the centre is not where a similarity puts it",
                      case, [back2.tolist(), want2.tolist()])
+        if not case.get("pre"):
+            full_compare(ctx, sig, case, obj, "%s = c; %s *= %d" % (prop, q, 2 ** prop_code(q)))
         return
     # positive target
     if getter_raised is not None:
@@ -838,6 +866,15 @@ class HeapWatch:
 
     def check(self, ctx, case, what):
         ctx.count("heap-pattern-checks")
+        # every array attribute of a shape is its own block (SettersHeap.Distinct, preserved by every setter)
+        arrs = list(private_arrays(self.obj).items())
+        for i in range(len(arrs)):
+            for j in range(i + 1, len(arrs)):
+                if arrs[i][1] is arrs[j][1] or np.shares_memory(arrs[i][1], arrs[j][1]):
+                    ctx.disagree("setter.heap:distinct-blocks", case,
+                                 {"step": what, "model": "every array attribute is its own block",
+                                  "implementation": "%s and %s share memory" % (arrs[i][0], arrs[j][0])})
+                    return False
         for name, kind, old, old_bytes in zip(self.names, self.kinds, self.before, self.bytes):
             new = _resolve(self.obj, name)
             if kind in (0, 1):
@@ -1001,6 +1038,74 @@ def pair_cases(ctx):
     return cases
 
 
+# ------------------------------------------------------------------ histories: centre assignment, THEN every size setter
+
+HIST_FLAVOURS = {"ConvexPolyhedron": ["tetrahedron", "octahedron", "generic", "regular"],
+                 "ConvexSpheropolyhedron": ["tetrahedron", "octahedron", "generic"]}
+
+
+def hist_case(ctx, case):
+    """centroid/center = c (a spheropolyhedron: on its core, `shape.polyhedron.centroid = c`), then ONE size setter;
+    after the last step the whole observable set must equal a freshly constructed shape's, the vertices must be the
+    translated ones times one positive factor, and no two array attributes may share a block."""
+    cls, prop, q, f = case["cls"], case["prop"], case["then"], case["factor"]
+    obj = build(np.random.default_rng(case["base_seed"]), cls, case["flavour"])
+    holder = obj.polyhedron if cls == "ConvexSpheropolyhedron" else obj
+    sig = "%s.%s=" % (cls, q)
+    target = np.array(case["value"], dtype=np.float64)
+    try:
+        setattr(holder, prop, target)
+    except Exception as e:
+        ctx.fail("%s.%s=:raises" % (type(holder).__name__, prop), "assigning a centre raised %s" % exc_kind(e), case, repr(e))
+        return
+    v_mid = np.array(obj.vertices, dtype=float)
+    try:
+        if q in sc.LOOSE:
+            import random
+            random.seed(20240917)
+        cur = float(getattr(obj, q))
+    except Exception:
+        ctx.count("getter-raises")
+        return
+    if is_shape_parameter(cls, q):
+        return
+    watch = HeapWatch(ctx, obj, cls, 0, {"caller's target": target})
+    try:
+        setattr(obj, q, cur * f)
+    except Exception as e:
+        ctx.fail(sig + ":raises", "a positive target after a centre assignment raised %s" % exc_kind(e), case, repr(e))
+        return
+    ctx.count("hist:%s" % cls)
+    watch.check(ctx, case, "%s = c; %s = %g * current" % (prop, q, f))
+    k = f ** (1.0 / prop_code(q))
+    v1 = np.array(obj.vertices, dtype=float)
+    if not sc.num_close(v1, k * v_mid, k * sc.size_of(obj), 1e-9):
+        ctx.fail(sig + ":not-a-similarity", "after a centre assignment the size setter is not a uniform scaling", case, [k])
+        return
+    full_compare(ctx, sig + ":after-centre-assignment", case, obj, "%s = c; %s = %g * current" % (prop, q, f))
+
+
+def hist_cases(ctx):
+    rng = ctx.rng
+    S = sc.shapes_mod()
+    cases = []
+    for cls, flavours in HIST_FLAVOURS.items():
+        props = [q for q in sc.settable_properties(getattr(S, cls)) if q not in ("centroid", "center")]
+        reps = 1 if ctx.tier == "quick" else 3
+        for flavour in flavours:
+            for _ in range(int(reps * ctx.widen)):
+                base_seed = int(rng.integers(1 << 30))
+                for q in props:
+                    cprops = ["centroid"] if cls == "ConvexSpheropolyhedron" else ["centroid", "center"]
+                    if ctx.tier == "quick" and len(cprops) > 1:
+                        cprops = [cprops[int(rng.integers(2))]]
+                    for prop in cprops:
+                        cases.append({"hist": True, "cls": cls, "flavour": flavour, "base_seed": base_seed, "prop": prop,
+                                      "value": rng.uniform(-4, 4, size=3).tolist(), "then": q,
+                                      "factor": float(rng.choice([0.3, 0.5, 1.7, 2.0, 6.0]))})
+    return cases
+
+
 def all_cases(ctx):
     rng = ctx.rng
     S = sc.shapes_mod()
@@ -1082,6 +1187,9 @@ def model_case(ctx, case):
 def run(ctx):
     check_table(ctx)
     circumcircle_probe(ctx)
+    for case in hist_cases(ctx):
+        ctx.case(case)
+        hist_case(ctx, case)
     for case in pair_cases(ctx):
         ctx.case(case)
         ctx.count("pair:%s:%s" % (case["cls"], case["share"]))
@@ -1108,6 +1216,9 @@ def replay(ctx, payload):
         return
     if case.get("probe") == "circumcircle":
         circumcircle_probe(ctx)
+        return
+    if case.get("hist"):
+        hist_case(ctx, case)
         return
     if case.get("pair"):
         pair_history(ctx, case)
